@@ -245,6 +245,79 @@ def tag_rules(s: str, allow_placeholders: bool) -> bool:
     return got == sorted(want)
 
 
+# ------------------------------------------------------------------ K5b a value under a tag with two value classes
+def _is_number(v):
+    """[+-]?(d+(.d*)?|.d+)([eE][+-]?d+)? over ASCII digits (the HED numeric class), as a hand-written scanner"""
+    n = len(v)
+    i = 0
+    if i < n and (v[i] == "+" or v[i] == "-"):
+        i += 1
+    d1 = 0
+    while i < n and 48 <= ord(v[i]) <= 57:
+        i += 1
+        d1 += 1
+    d2 = 0
+    if i < n and v[i] == ".":
+        i += 1
+        while i < n and 48 <= ord(v[i]) <= 57:
+            i += 1
+            d2 += 1
+    if d1 == 0 and d2 == 0:
+        return False
+    if i < n and (v[i] == "e" or v[i] == "E"):
+        i += 1
+        if i < n and (v[i] == "+" or v[i] == "-"):
+            i += 1
+        d3 = 0
+        while i < n and 48 <= ord(v[i]) <= 57:
+            i += 1
+            d3 += 1
+        if d3 == 0:
+            return False
+    return i == n
+
+
+def _is_name(v):
+    """HED nameClass over ASCII: letters, digits, underscore, hyphen"""
+    for ch in v:
+        o = ord(ch)
+        if not (48 <= o <= 57 or 65 <= o <= 90 or 97 <= o <= 122 or o == 95 or o == 45):
+            return False
+    return len(v) > 0
+
+
+def value_two_classes(t: str) -> bool:
+    """
+    pre: 3 <= len(t) <= 2 + R.N(3)
+    pre: t[0] == "L" and t[1] == "/"
+    pre: R.env_int("VP_LEN") is None or len(t) == 2 + R.env_int("VP_LEN")
+    pre: R.ascii_printable(t)
+    pre: "/" not in t[2:] and "#" not in t[2:] and " " not in t[2:] and "," not in t[2:] and "(" not in t[2:] and ")" not in t[2:]
+    post: _
+    """
+    # L/# declares numericClass AND nameClass: a value is rule-conforming iff ONE of them accepts it
+    from vp.mini_values import MINI_V
+    tag = HedTag(t, MINI_V)
+    if tag._schema_entry is None:
+        return False
+    errs = _err_codes(_hv_values().validate_units(tag))
+    v = t[2:]
+    if _is_number(v) or _is_name(v):
+        return errs == []
+    return errs != []
+
+
+_HVV = []
+
+
+def _hv_values():
+    if not _HVV:
+        from vp.mini_values import MINI_V
+        from hed.validator.hed_validator import HedValidator
+        _HVV.append(HedValidator(MINI_V))
+    return _HVV[0]
+
+
 # ------------------------------------------------------------------ K6 issue kind -> published code
 KINDS = [ValidationErrors.NO_VALID_TAG_FOUND, ValidationErrors.INVALID_PARENT_NODE, ValidationErrors.HED_TAG_GROUP_TAG,
          ValidationErrors.HED_TOP_LEVEL_TAG, ValidationErrors.TAG_EXTENSION_INVALID, ValidationErrors.TAG_REQUIRES_CHILD]
@@ -325,6 +398,21 @@ HARNESSES = [
         stubs=["mini schema (25-node tag tree) loaded by the real loader", "chx ASCII casefold accelerator",
                "chx_hash: builtin hash() without CrossHair's contract fork"],
         outside="the bundled vocabularies; value/unit text (C11); tags longer than the bound"),
+    R.H("value_two_classes",
+        ["hed.validator.hed_validator.HedValidator.validate_units",
+         "hed.validator.util.class_util.UnitValueValidator._check_value_class",
+         "hed.validator.util.class_util.UnitValueValidator.check_tag_value_class_valid",
+         "hed.validator.util.char_util.CharRexValidator.is_valid_value",
+         "hed.validator.util.char_util.CharRexValidator.get_problem_chars"],
+        quick=R.tier(cells=R.int_cells("VP_LEN", 1, 3), env={"VP_N": 3}, timeout=300,
+                     bound="tag L/<v>, every printable-ASCII value v of 1-3 characters (no blank / # , ( )), on the mini "
+                           "schema variant where L/# declares numericClass and nameClass"),
+        thorough=R.tier(cells=R.int_cells("VP_LEN", 1, 4), env={"VP_N": 4}, timeout=1500, bound="same with 1-4 characters"),
+        what="a value under a tag with several value classes draws no error iff at least one class accepts it (a "
+             "number, or a name of letters/digits/_/-); otherwise an error is reported",
+        oracle="hand-written numeric scanner and name-class predicate",
+        stubs=["mini schema variant vp/mini_values.py (extra node L/# with two value classes) loaded by the real loader"],
+        outside="non-ASCII values; other class combinations; the bundled schemas' Loudness/#"),
     R.H("published_code", ["hed.errors.error_reporter.ErrorHandler.format_error"],
         quick=R.tier(timeout=120, bound="6 issue kinds x any override code text of 1-3 chars / no override"),
         what="the reported code is the override when given, else the kind's published HED code; severity error",
